@@ -32,6 +32,7 @@ class P(b1.Plugin):
                 f.metas = gen.render_field_cmp_attr(rng, carrier, req, "eq_m_%s" % f.ty)
         self.rng = rng
         noise = [t for t in ("Debug", "Hash") if rng.random() < 0.35]
+        td.type_spelling = True
         gen.finalize_attrs(rng, td, noise)
         return td
 
